@@ -417,3 +417,52 @@ M("C11", "close-cuts-at-rfind", F, "", "", "C11.R8", edits=[
     (F, '        stack = []\n        list_props = [\n', '        stack = []\n        where = ""\n        list_props = [\n'),
     (F, '                    stack.extend(line)\n', '                    stack.extend(line)\n                    where = ".".join(stack)\n'),
     (F, CLOSE, '                elif item == "}":\n                    where = where[: max(where.rfind("."), 0)]\n                    stack = where.split(".") if where else []\n')])
+
+# ------------------------------------------------------------------------------------------------ wave 5
+# R2: the cache key covers the whole tree.  hash(self.tree) (directly, through a temporary, through an extracted helper)
+# is accepted; a key the rule cannot judge (a digest of the rendered text) is undecided, not an alarm; a key that provably drops
+# part of the tree (only the leaves, a count, an identity, the root's name) is a violation - whatever it is called and wherever
+# it is computed
+def _KEY(expr):
+    return [(F, EARLY, EARLY.replace("hash(self.tree)", expr)), (F, TAIL, TAIL.replace("hash(self.tree)", expr))]
+
+
+_KEY_HELPER = '    def _tree_key(self) -> int:\n        return {E}\n\n    def as_dict(self) -> dict:\n'
+T("C11", "twin-cache-key-extracted-helper", F, "", "", edits=_KEY("self._tree_key()") + [
+    (F, "    def as_dict(self) -> dict:\n", _KEY_HELPER.replace("{E}", "hash(self.tree)"))])
+T("C11", "twin-cache-key-text-digest", F, "", "", edits=_KEY("hash(self.as_text())"))
+M("C11", "cache-key-children-count", F, "", "", "C11.R2", edits=_KEY("len(self.tree.children)"))
+M("C11", "cache-key-tree-identity", F, "", "", "C11.R2", edits=_KEY("id(self.tree)"))
+M("C11", "cache-key-all-leaves-inline", F, "", "", "C11.R2", edits=_KEY("hash(tuple(self.tree.scan_values(lambda v: True)))"))
+M("C11", "cache-key-leaves-helper-with-temporary", F, "", "", "C11.R2", edits=_KEY("self._tree_key()") + [
+    (F, "    def as_dict(self) -> dict:\n", '    def _tree_key(self) -> int:\n        leaves = self.tree.scan_values(lambda leaf: leaf is not None)\n        return hash(tuple(leaves))\n\n    def as_dict(self) -> dict:\n')])
+M("C11", "renamed-key-root-name-only", F, "", "", "C11.R2", edits=[
+    RENAMED[0], (F, EARLY, '        if self._view_key == hash(self.tree.data):\n            return self._view\n        line = []\n'),
+    (F, TAIL, '        self._view_key, self._view = hash(self.tree.data), dict(properties)\n        return self._view\n')])
+M("C11", "cache-key-compared-whole-stored-leaves", F, TAIL,
+  TAIL.replace("hash(self.tree)", "hash(tuple(self.tree.scan_values(lambda v: isinstance(v, Token))))"), "C11.R2")
+
+# R9: attaching a block - the place gets a node of its own, the block given stays as it was.  A new node per attachment (also a
+# renamed shallow copy of the block's root node) is fine; the block's own root node in the parent, or an attachment that takes the
+# statements away from the block, is not
+NON_EMPTY = '        if config_block.tree.children:\n            self.set_config_block(option, config_block)\n'
+T("C11", "twin-attach-renamed-shallow-copy", F, "", "", edits=[
+    (F, "import collections\n", "import collections\nimport copy\n"),
+    (F, SPLICE, '        node = copy.copy(config_block.tree)\n        node.data = option\n        self.tree.children.append(node)\n')])
+T("C11", "twin-attach-non-empty-inlined", F, NON_EMPTY,
+  '        children = config_block.tree.children\n        if not children:\n            return\n        self.tree.children.append(Tree(option, children))\n')
+M("C11", "attach-own-node-renamed-inline", F, SPLICE, '        config_block.tree.data = option\n        self.tree.children.append(config_block.tree)\n', "C11.R9")
+M("C11", "attach-own-node-in-non-empty-variant", F, NON_EMPTY,
+  '        node = config_block.tree\n        if node.children:\n            node.data = option\n            self.tree.children += [node]\n', "C11.R9")
+M("C11", "attach-own-node-setattr-insert", F, SPLICE,
+  '        block_tree = config_block.tree\n        setattr(block_tree, "data", option)\n        self.tree.children.insert(len(self.tree.children), block_tree)\n', "C11.R9")
+M("C11", "attach-moves-the-statements", F, SPLICE, SPLICE + '        config_block.tree.children = []\n', "C11.R9")
+M("C11", "attach-copies-then-clears", F, SPLICE,
+  '        statements = config_block.tree.children\n        self.tree.children.append(Tree(option, list(statements)))\n        statements.clear()\n', "C11.R9")
+# the key computed once in the comparison itself (assignment expression) and stored from the local
+T("C11", "twin-cache-hash-walrus", F, "", "", edits=[
+    (F, EARLY, '        if self._dict_hash == (tree_hash := hash(self.tree)):\n            return self._dict_cache\n        line = []\n'),
+    (F, TAIL, '        self._dict_hash = tree_hash\n        self._dict_cache = dict(properties)\n        return self._dict_cache\n')])
+M("C11", "cache-key-walrus-leaves-only", F, "", "", "C11.R2", edits=[
+    (F, EARLY, '        if self._dict_hash == (tree_key := hash(tuple(self.tree.scan_values(lambda v: isinstance(v, Token))))):\n            return self._dict_cache\n        line = []\n'),
+    (F, TAIL, '        self._dict_hash = tree_key\n        self._dict_cache = dict(properties)\n        return self._dict_cache\n')])
